@@ -296,6 +296,88 @@ class LeaveIndex(Contract):
         return out
 
 
+# ----------------------------------------------------------------------------------------------------------------------
+# tree_node_range / tree_node_parents / tree_find_path_to_root on fitted trees: bounded in the SHAPE of the tree, complete in
+# the numbering of the nodes (arbitrary distinct ids - scikit-learn stores best-first trees in another order than depth-first
+# ones), the split features, the thresholds and the point
+LEAF = "leaf"
+SHAPES = {
+    "stump": (LEAF, LEAF),
+    "left_deep": ((LEAF, LEAF), LEAF),
+    "right_deep": (LEAF, (LEAF, LEAF)),
+    "balanced": ((LEAF, LEAF), (LEAF, LEAF)),
+    "zigzag": ((LEAF, (LEAF, LEAF)), LEAF),
+}
+
+
+def _nodes(shape, path=()):
+    """[(path from the root as a tuple of 0 (left) / 1 (right), is_leaf)] in preorder"""
+    if shape == LEAF:
+        return [(path, True)]
+    return [(path, False)] + _nodes(shape[0], path + (0,)) + _nodes(shape[1], path + (1,))
+
+
+def _leaves(shape):
+    return [p for p, leaf in _nodes(shape) if leaf]
+
+
+@contract(S + "::tree_node_range", "C12")
+class NodeRange(Contract):
+    """the box returned for a leaf contains exactly the points the tree routes to that leaf (nan = no bound on that side)"""
+    variants = [(sh, k) for sh in SHAPES for k in range(len(_leaves(SHAPES[sh])))]
+    max_paths = 40000
+
+    def setup(self, E, v):
+        sh, k = v
+        nodes = _nodes(SHAPES[sh])
+        m = len(nodes)
+        ids = {p: (z3.IntVal(0) if p == () else E.int("id_" + "".join(map(str, p)))) for p, _ in nodes}     # the root is node 0
+        for p, t in ids.items():
+            E.assume(z3.And(t >= 0, t < m))
+        E.assume(z3.Distinct(*ids.values()))
+        D = E.size("n_features", 1)
+        cl, cr = E.nd("children_left", (m,), "int"), E.nd("children_right", (m,), "int")
+        feat, thr = E.nd("feature", (m,), "int"), E.nd("threshold", (m,), "real")
+        for p, leaf in nodes:
+            if leaf:
+                E.assume(z3.And(cl.get(ids[p]) == -1, cr.get(ids[p]) == -1, feat.get(ids[p]) == -2))
+            else:
+                E.assume(z3.And(cl.get(ids[p]) == ids[p + (0,)], cr.get(ids[p]) == ids[p + (1,)], feat.get(ids[p]) >= 0, feat.get(ids[p]) < z(D)))
+        t = Obj("Tree", tag="Tree")
+        t.fields.update(children_left=cl, children_right=cr, feature=feat, threshold=thr, node_count=m)
+        target = _leaves(SHAPES[sh])[k]
+        return dict(tree=t, i=ids[target], parents=None, _ids=ids, _target=target, _D=D)
+
+    def old(self, E, a):
+        return dict(w=[a.tree.fields[f].cell.writes for f in ("children_left", "children_right", "feature", "threshold")])
+
+    def ensures(self, E, a, res, old, strict=False):
+        ok = isinstance(res, NdArr) and res.ndim == 2
+        out = {"a_matrix_with_a_lower_and_an_upper_bound_per_feature": z3.BoolVal(ok) if not ok else z(res.shape[1]) == 2}
+        if not ok:
+            return out
+        t = a.tree.fields
+        x = z3.Function(models.fresh_name("x"), z3.IntSort(), z3.RealSort())          # an arbitrary point
+        reach = []
+        for d in range(len(a._target)):
+            nid = a._ids[a._target[:d]]
+            f, th = t["feature"].get(nid), t["threshold"].get(nid)
+            go_left = (x(f) < th) if strict else (x(f) <= th)                          # scikit-learn: x[feature] <= threshold goes left
+            reach.append(go_left if a._target[d] == 0 else z3.Not(go_left))
+        f = z3.Int(models.fresh_name("f"))
+        rows = z(res.shape[0])
+        inbox = z3.ForAll([f], z3.Implies(z3.And(f >= 0, f < rows), z3.And(
+            z3.Or(res.isnan(f, 0), x(f) > res.get(f, 0)), z3.Or(res.isnan(f, 1), x(f) <= res.get(f, 1)))))
+        out["rows_cover_the_split_features_of_the_path"] = z3.And(*[
+            t["feature"].get(a._ids[a._target[:d]]) < rows for d in range(len(a._target))])
+        out["a_point_is_in_the_box_iff_the_tree_routes_it_to_the_leaf"] = z3.And(*reach) == inbox
+        out["tree_not_written"] = z3.BoolVal([a.tree.fields[g].cell.writes for g in ("children_left", "children_right", "feature", "threshold")] == old["w"])
+        return out
+
+    canaries = {"strict_comparison_on_the_left": lambda E, a, res, old: NodeRange().ensures(E, a, res, old, strict=True).get(
+        "a_point_is_in_the_box_iff_the_tree_routes_it_to_the_leaf", z3.BoolVal(True))}
+
+
 META = dict(
     level="proof", assumptions=["A1", "A2", "A6", "A7", "A9"],
     trusted=["Tree._add_node / the Cython wrapper tree_add_node: returns the next node id; in the final tree a split node routes x <= threshold to the "
@@ -304,5 +386,7 @@ META = dict(
              "DecisionTreeRegressor.predict(x) = tree_.value[leafid(0, x)]; TREE_LEAF = -1"],
     not_applicable=["float32: scikit-learn casts X to float32 before comparing with the float64 thresholds; the proof is over the reals (A1). "
                     "Known finding: x or a bin edge that is not float32-exact (pinned witness in KNOWN_FINDINGS.json)",
-                    "predict_leaves, tree_node_range, tree_node_parents on fitted trees: bounded stand-in (sparse decision_path / nan-as-infinity encoding)"],
+                    "tree_node_range (with tree_node_parents, tree_find_path_to_root): proved for 5 tree SHAPES (up to 7 nodes, depth 3) x every leaf, "
+                    "complete in the numbering of the nodes, split features, thresholds and the point - arbitrary shapes by induction are not built",
+                    "predict_leaves on fitted trees: bounded stand-in (sparse decision_path, argmax)"],
 )
